@@ -84,6 +84,35 @@ def _servable_any(interp, args, kwargs):
     return SV(BOOL, z3.Exists([f], _servable(_join(f, _basename(_s(interp, args[0]))))))
 
 
+def _ufun(name, n):
+    def f(interp, args, kwargs):
+        fn = z3.Function(name, *([z3.StringSort()] * (n + 1)))
+        return SV(STR, fn(*[_s(interp, a) for a in args]))
+    return f
+
+
+def _forall_str(interp, args, kwargs):
+    """forall_str(lambda p: ...): quantification over all strings (specification only)"""
+    ctx = interp.ctx
+    p = z3.Const(ctx.fresh_name("p"), z3.StringSort())
+    body = interp.call(args[0], [SV(STR, p)], {})
+    return SV(BOOL, z3.ForAll([p], ctx.zbool(ctx.truth(body))))
+
+
+def _src_map(interp, args, kwargs):
+    from pyvc.vals import Ty
+    ty = Ty("SrcMap")
+    return SV(ty, z3.Const(interp.ctx.fresh_name("srcmap"), z3.ArraySort(z3.StringSort(), z3.StringSort())))
+
+
+def _src_of(interp, args, kwargs):
+    return SV(STR, z3.Select(args[0].t, _s(interp, args[1])))
+
+
+def _empty_str_set(interp, args, kwargs):
+    return SV(TSet(STR), z3.K(z3.StringSort(), z3.BoolVal(False)))
+
+
 def _bool_unknown(name):
     def f(interp, args, kwargs):
         return SV(BOOL, z3.Bool(interp.ctx.fresh_name(name)))
@@ -106,6 +135,9 @@ def _copy(interp, args, kwargs):
         ctx.assume(z3.Implies(_servable(dst), z3.Or(z3.SuffixOf(z3.StringVal(".xml"), dst),
                                                     z3.SuffixOf(z3.StringVal(".json"), dst))))
         g["fs_torn_servable"] = SV(BOOL, z3.Or(ctx.term(g["fs_torn_servable"], BOOL), _servable(dst)))
+    if "fs_copy_src" in g:
+        m = g["fs_copy_src"]
+        g["fs_copy_src"] = SV(m.ty, z3.Store(m.t, dst, _s(interp, args[0])))
     if "fs_copied" in g:
         cur = g["fs_copied"]
         ty = TSet(STR)
@@ -203,6 +235,10 @@ if z3 is not None:
         "os.makedirs": _makedirs, "shutil.copy2": _copy, "shutil.copy": _copy, "shutil.copyfile": _copy, "copyfile": _copy,
         "os.replace": _replace, "os.remove": _remove, "open": _open, "File.readline": _readline, "File.write": _file_write,
         "json.dump": _json_dump, "time.time": _time,
+        "file_key_of": _ufun("file_key_of", 2), "backup_path_of": _ufun("backup_path_of", 3), "empty_str_set": _empty_str_set,
+        "datetime.now": lambda interp, args, kwargs: Opaque("now", fresh=True),
+        "forall_str": _forall_str, "basename_of": _basename_model, "original_path_of": _ufun("original_path_of", 2),
+        "backup_keys": lambda interp, args, kwargs: interp.ctx.wrap(z3.Function("backup_keys", z3.IntSort(), z3.StringSort(), sort_of(__import__("pyvc.vals", fromlist=["TList"]).TList(STR)))(args[0].t, _s(interp, args[1])), __import__("pyvc.vals", fromlist=["TList"]).TList(STR)), "unknown_src_map": _src_map, "src_of": _src_of,
         "servable": _servable_spec, "servable_in_any_folder": _servable_any, "os.listdir": lambda interp, args, kwargs: Opaque("os.listdir()", fresh=True),
         "portalocker.Lock": _lock_ctor, "PLock.acquire": _lock_acquire, "PLock.release": _lock_release,
     })
